@@ -59,6 +59,10 @@ type LoopCase struct {
 	Plan          []SAct    `json:"plan"`
 	AllowF9       bool      `json:"allow_f9,omitempty"`     // known-finding reproduction only
 	ReceiveOnly   bool      `json:"receive_only,omitempty"` // instance runs with Options.ReceiveOnly (C03 only: nothing is uploaded)
+	// Sweeper: the tomb sweeper is configured (370 days retention; its first pass is an hour away, so it never
+	// runs). Every generated peer timestamp is then older than the stale-marker cutoff: a peer's deletion
+	// marker must still only ever act as a version in last-writer-wins, never delete a newer local write.
+	Sweeper bool `json:"sweeper,omitempty"`
 	ExcludedEmpty int       `json:"excluded_empty,omitempty"`
 }
 
@@ -128,6 +132,9 @@ func runLoopCase(c LoopCase, o *vcore.Obs) (*loopStats, error) {
 	// memory limits are C16's business: leave room for the update being merged, one waiting and one downloading
 	conf.MemoryDecompressedSnapshots = 4
 	conf.MemoryDownloadedSnapshots = 4
+	if c.Sweeper {
+		conf.Sweeper = config.Sweeper{Enabled: true, RetentionDays: 370, Interval: time.Hour, FirstInterval: time.Hour, LockDuration: time.Millisecond, ReleaseDuration: time.Millisecond}
+	}
 	lc := config.LMDB{SchemaTracksChanges: c.Native}
 	h := b.Handle("a")
 	nd := NewNode("a", env, h, conf, lc, syncer.Options{ReceiveOnly: c.ReceiveOnly})
@@ -153,6 +160,14 @@ func runLoopCase(c LoopCase, o *vcore.Obs) (*loopStats, error) {
 			dup[dbi+"/"+k] = true
 			if merged[dbi] == nil {
 				merged[dbi] = map[string]VerSet{}
+			}
+			if c.Sweeper && e.Del {
+				// every generated peer timestamp is older than the stale-marker cutoff: such a marker is not
+				// created for a key the instance has no entry for (by design, C04); for a key it has an entry
+				// for (live or marker) it is an ordinary version
+				if _, has := local[dbi][k]; !has && len(merged[dbi][k]) == 0 {
+					continue
+				}
 			}
 			vs := merged[dbi][k]
 			v := Ver{TS: e.TS, Del: e.Del, Val: e.Val}
@@ -406,7 +421,7 @@ func runLoopCase(c LoopCase, o *vcore.Obs) (*loopStats, error) {
 			if loading != nil {
 				addMerged(loading.ents)
 				if !c.Native {
-					mergeIntoMirror(mir, loading.ents)
+					mergeIntoMirror(mir, loading.ents, c.Sweeper)
 				}
 				if lastAppBetween {
 					st.mergeAfter = true
@@ -714,6 +729,7 @@ func genLoopCase(t *rapid.T) LoopCase {
 	var c LoopCase
 	c.Native = rapid.Bool().Draw(t, "native")
 	c.ReceiveOnly = rapid.IntRange(0, 5).Draw(t, "receive_only") == 0
+	c.Sweeper = rapid.IntRange(0, 3).Draw(t, "sweeper") == 0
 	nkeys := rapid.IntRange(1, 3).Draw(t, "nkeys")
 	if rapid.IntRange(0, 2).Draw(t, "start?") > 0 {
 		for i := 0; i < rapid.IntRange(1, 3).Draw(t, "nstart"); i++ {
@@ -772,10 +788,11 @@ type enumLoop struct {
 	// records a transaction, so the next merge sees "local changes", but in shadow mode its capture pass
 	// finds nothing to capture (with a no-op peer snapshot the whole merge transaction stays empty)
 	NoopFirst bool `json:"noop_first,omitempty"`
+	Sweeper   bool `json:"sweeper,omitempty"`
 }
 
 func (e enumLoop) toCase() LoopCase {
-	c := LoopCase{Native: e.Native, ReceiveOnly: e.ReceiveOnly}
+	c := LoopCase{Native: e.Native, ReceiveOnly: e.ReceiveOnly, Sweeper: e.Sweeper}
 	ts := uint64(0)
 	if e.Native {
 		ts = 20
@@ -811,16 +828,21 @@ func (e enumLoop) toCase() LoopCase {
 	if e.NoopFirst {
 		c.Plan = append(c.Plan, SAct{Kind: "app", Changes: []SChange{{DBI: 0, Key: 0, Op: "put", Val: model.Bytes("v0"), TS: 20}}})
 	}
+	late := []SPeer{{DBI: 0, Key: 4, TS: peerTS(25), Val: model.Bytes("late")}}
+	if e.Sweeper {
+		// markers far older than the retention, for keys the application holds newer versions of
+		late = append(late, SPeer{DBI: 0, Key: 0, TS: peerTS(5), Del: true}, SPeer{DBI: 0, Key: 3, TS: peerTS(5), Del: true}, SPeer{DBI: 1, Key: 0, TS: peerTS(5), Del: true})
+	}
 	c.Plan = append(c.Plan,
 		SAct{Kind: "app", At: e.Point, Changes: ch},
-		SAct{Kind: "deliver", At: "sync.before-sleep", Peer: []SPeer{{DBI: 0, Key: 4, TS: peerTS(25), Val: model.Bytes("late")}}})
+		SAct{Kind: "deliver", At: "sync.before-sleep", Peer: late})
 	return c
 }
 
 func TestC03Enum(t *testing.T) {
 	points := loopYieldPoints[:12]
 	vcore.RunEnum(t, vcore.Config{Property: "C03", Inflight: true,
-		Rule: "fault enumeration over a fixed scenario (instance starts with two keys, a peer snapshot is merged, the application commits once, a later peer snapshot is merged, loop runs until idle): EVERY yield point (12) x kind of application change {insert, overwrite, delete, new DBI, multi-key} x {native, shadow} x {peer snapshot is a no-op, or not} x {another application commit precedes so that the iteration also captures and uploads, or not} - this covers Lightning Stream write transactions that turn out empty and ones that do not; plus the same commit after a same-value rewrite (a recorded application transaction with nothing to capture), and on a receive-only instance; C03 oracle after every yield, C09 oracle when idle; commits that match the listed known finding (transaction id reuse after an empty LS transaction) are deferred to the next yield and counted; " +
+		Rule: "fault enumeration over a fixed scenario (instance starts with two keys, a peer snapshot is merged, the application commits once, a later peer snapshot is merged, loop runs until idle): EVERY yield point (12) x kind of application change {insert, overwrite, delete, new DBI, multi-key} x {native, shadow} x {peer snapshot is a no-op, or not} x {another application commit precedes so that the iteration also captures and uploads, or not} - this covers Lightning Stream write transactions that turn out empty and ones that do not; plus the same commit with the tomb sweeper configured and stale peer markers for the keys it touches, after a same-value rewrite (a recorded application transaction with nothing to capture), and on a receive-only instance; C03 oracle after every yield, C09 oracle when idle; commits that match the listed known finding (transaction id reuse after an empty LS transaction) are deferred to the next yield and counted; " +
 			"non-trivial = the commit fell between two LS transactions of one loop iteration"},
 		func(yield func(enumLoop) bool) {
 			for _, native := range []bool{true, false} {
@@ -838,6 +860,10 @@ func TestC03Enum(t *testing.T) {
 							if !yield(enumLoop{Native: native, Point: p, Kind: k, PeerNoop: noop, NoopFirst: true}) {
 								return
 							}
+						}
+						// with the tomb sweeper configured: the second peer snapshot then also carries a (stale) marker
+						if !yield(enumLoop{Native: native, Point: p, Kind: k, PeerNoop: false, LocalFirst: true, Sweeper: true}) {
+							return
 						}
 						// the same commit on a receive-only instance (captures, merges, never uploads)
 						if !yield(enumLoop{Native: native, Point: p, Kind: k, PeerNoop: false, LocalFirst: true, ReceiveOnly: true}) {
@@ -887,7 +913,7 @@ func TestKnownC03(t *testing.T) {
 	run("txnid-reuse-after-empty-ls-txn/send.after-txn/shadow", c)
 }
 
-func mergeIntoMirror(mir *model.Mirror, ents []SPeer) {
+func mergeIntoMirror(mir *model.Mirror, ents []SPeer, sweeper bool) {
 	dup := map[string]bool{}
 	for _, e := range ents {
 		dbi := fleetDBIs[e.DBI%len(fleetDBIs)]
@@ -896,6 +922,14 @@ func mergeIntoMirror(mir *model.Mirror, ents []SPeer) {
 			continue
 		}
 		dup[dbi+"/"+string(k)] = true
+		if sweeper && e.Del {
+			// stale marker (see addMerged): not created where the shadow DBI has no entry for the key
+			if d := mir.DBIs[dbi]; d == nil {
+				continue
+			} else if _, has := d.Shadow[string(k)]; !has {
+				continue
+			}
+		}
 		mir.MergeRemote(dbi, "plain", k, model.SVer{TS: e.TS, Del: e.Del, Val: e.Val}, 0)
 	}
 }
